@@ -758,12 +758,12 @@ Section Proofs.
     forall l, In l inputs -> exists n, l = LPlain n.
 
   Lemma input_db_hashed inputs ver n k : aget (input_db K inputs ver) (PH n k) = None.
-  Proof. induction inputs; cbn; auto. Qed.
+  Proof. unfold input_db. induction inputs; cbn; auto. Qed.
   Lemma input_db_leaf inputs ver l :
     aget (input_db K inputs ver) (PL l) =
     if existsb (lname_eqb l) inputs then Some {| e_prov := PInput (lbase l) ver; e_origin := User |} else None.
   Proof.
-    induction inputs as [|a r IH]; cbn; auto.
+    unfold input_db. induction inputs as [|a r IH]; cbn; auto.
     destruct (lname_eqb a l) eqn:E.
     - apply lname_eqb_spec in E. subst. rewrite lname_eqb_refl. auto.
     - rewrite IH. destruct (lname_eqb l a) eqn:E2; auto. apply lname_eqb_spec in E2. subst. rewrite lname_eqb_refl in E. discriminate.
